@@ -77,6 +77,28 @@ def generate(rng, tier):
                                      "sizes": gen.stats(cases, {"n_records": lambda c: len(c["a"])})}}
 
 
+_SEG_RE = None
+
+
+def _parse_seg_str(text):
+    """'[ HH:MM:SS.mmm --> -HH:MM:SS.mmm]' -> [start_ms, end_ms]; '[]' or anything else -> None"""
+    import re
+    global _SEG_RE
+    if _SEG_RE is None:
+        one = r"\s*(-?)\s*(\d+):(\d\d):(\d\d)\.(\d{3})"
+        _SEG_RE = re.compile(r"^\[" + one + r" -->" + one + r"\]$")
+    m = _SEG_RE.match(text)
+    if not m:
+        return None
+    g = m.groups()
+    def ms(sign, h, mi, sec, milli):
+        v = ((int(h) * 60 + int(mi)) * 60 + int(sec)) * 1000 + int(milli)
+        return -v if sign == "-" else v
+    if int(g[2]) >= 60 or int(g[3]) >= 60 or int(g[7]) >= 60 or int(g[8]) >= 60:
+        return None
+    return [ms(*g[0:5]), ms(*g[5:10])]
+
+
 def _lines(f):
     try:
         txt = f()
@@ -131,6 +153,7 @@ def run(case):
         out["uem"] = _lines(t.to_uem)
         assert out["uem"] == _lines(via_write("write_uem"))
         out["strs"] = [str(tb.S(x[0])) for x in case["a"]]
+        out["strs_ms"] = [_parse_seg_str(x) for x in out["strs"]]
         return out
     finally:
         tb.leave()
@@ -143,7 +166,8 @@ def encode(case, o):
     return (f"K {e.z(r['eps'])} {e.z(r['scale'])} {enc_triples(case['a'])} {enc_uri(case['ua'])} "
             f"{enc_triples(case['b'])} {enc_uri(case['ub'])} {e.b(o['eq'])} {e.b(o['ne'])} {e.b(o['eq_self_copy'])} "
             f"{e.b(o['rt_records'])} {e.b(o['rt_df'])} {e.b(o['rt_timeline'])} {e.b(o['tl_eq'])} {e.b(o['tl_ne'])} "
-            f"{ol(o['rttm'])} {ol(o['lab'])} {ol(o['uem'])} {e.lst([e.s(x) for x in o['strs']])}")
+            f"{ol(o['rttm'])} {ol(o['lab'])} {ol(o['uem'])} {e.lst([e.s(x) for x in o['strs']])} "
+            f"{e.lst([e.opt(x, lambda p: e.pair(e.z(p[0]), e.z(p[1]))) for x in o['strs_ms']])}")
 
 
 def nontrivial(case, o):
